@@ -235,6 +235,13 @@ class FormDataParser:
         else:
             return stream, self.cls(), self.cls()
 
+        if (
+            self.max_content_length is not None
+            and content_length is not None
+            and content_length > self.max_content_length
+        ):
+            raise RequestEntityTooLarge()
+
         if options is None:
             options = {}
 
